@@ -714,6 +714,20 @@ def run(ctx):
         rule_cli_table(ctx, sem)
         rule_options(ctx)
         return
+    if sem is not None and "raises" in sem:
+        # a command line of the table on which run() does not return at all: that is a finding of its own, whatever the CFG rules
+        # (which may not recognise the code's shape) go on to say
+        r0 = ctx.rule("R19.0", "cli.run returns an exit status for every command line of the scenario table (no exception escapes it)", floor=1)
+        r0.fail("cli.run|table|raises", site(ctx.prog.func("cli.run")), "on the scenario table cli.run %s" % sem["raises"])
+        try:
+            _structural(ctx)
+        except AnalysisError as e:
+            r0.note(site(ctx.prog.func("cli.run")), "CFG rules not applicable to this shape: %s" % e)
+        return
+    _structural(ctx)
+
+
+def _structural(ctx):
     rule_schema_gate(ctx)
     rule_every_instance(ctx)
     rule_monotone_status(ctx)
